@@ -207,6 +207,20 @@ type c39Hist struct {
 	setHeadAt int // log length right before SetHead was called (0 = never)
 	byHash    map[common.Hash]*types.Block
 	onCanon   map[common.Hash]bool
+	excluded  int // assertions skipped because of a known finding
+
+	lastFrozen uint64 // Ancients() right after rawdb.Open of the image being checked
+}
+
+// Classes of suspected geth defects (notes/C39.md); honoured only when listed in
+// known_findings.json. They are registered for both tests of this file.
+const (
+	c39ClassReorgGap     = "reorg-markers-deleted-before-head-update"
+	c39ClassSetHeadAbove = "sethead-crash-leaves-canonical-above-head"
+)
+
+func c39Known(class string) bool {
+	return vs.Known("TestVerifC39Crash", class)
 }
 
 var (
@@ -394,10 +408,35 @@ func c39RunHistory(rt c39T, sc *c39Scenario, wantPoints int) *c39Hist {
 	}
 	// the crash at the very end ("pull the plug", as the repair tests do)
 	capture("end")
+	// self-check of the recording layer: replaying the whole log reproduces the store
+	if d := c39DiffKV(h.klog.Materialize(h.klog.Len()), kv.Store.Inner()); d != "" {
+		rt.Fatalf("VERIF-HARNESS-BUG: replay of the complete key-value log differs from the live store: %s", d)
+	}
 	chain.triedb.Close()
 	db.Close()
 	chain.stopWithoutSaving()
 	return h
+}
+
+func c39DiffKV(a, b ethdb.KeyValueStore) string {
+	ia, ib := a.NewIterator(nil, nil), b.NewIterator(nil, nil)
+	defer ia.Release()
+	defer ib.Release()
+	for {
+		na, nb := ia.Next(), ib.Next()
+		if !na && !nb {
+			return ""
+		}
+		if na != nb {
+			if na {
+				return fmt.Sprintf("extra key in replay %x", ia.Key())
+			}
+			return fmt.Sprintf("key missing in replay %x", ib.Key())
+		}
+		if string(ia.Key()) != string(ib.Key()) || string(ia.Value()) != string(ib.Value()) {
+			return fmt.Sprintf("replay has %x, live store has %x", ia.Key(), ib.Key())
+		}
+	}
 }
 
 // ---------------------------------------------------------------------------
@@ -409,8 +448,15 @@ type c39Image struct {
 }
 
 func (h *c39Hist) failf(rt c39T, img c39Image, format string, a ...any) {
-	rt.Fatalf("%s\n  scenario: %s\n  crash: phase=%s kv-events=%d kv-prefix=%d (lastSync=%d, total=%d) commitAt=%d setHeadAt=%d",
-		fmt.Sprintf(format, a...), h.sc, img.point.label, img.point.event, img.prefix, h.klog.LastSync(img.point.event), h.klog.Len(), h.commitAt, h.setHeadAt)
+	var files []string
+	for _, n := range img.point.files.Names() {
+		if sz := len(img.point.files.Files[n]); sz > 0 && strings.HasPrefix(n, "chain/") {
+			files = append(files, fmt.Sprintf("%s:%d", strings.TrimPrefix(n, "chain/"), sz))
+		}
+	}
+	rt.Fatalf("%s\n  scenario: %s\n  crash: phase=%s kv-events=%d kv-prefix=%d (lastSync=%d, total=%d) commitAt=%d setHeadAt=%d frozen-on-open=%d\n  freezer files: %s",
+		fmt.Sprintf(format, a...), h.sc, img.point.label, img.point.event, img.prefix, h.klog.LastSync(img.point.event), h.klog.Len(), h.commitAt, h.setHeadAt, h.lastFrozen,
+		strings.Join(files, " "))
 }
 
 func c39Name(b *types.Block, canon bool) string {
@@ -425,10 +471,30 @@ func c39Name(b *types.Block, canon bool) string {
 // last one durably persisted in the image (0 if none / genesis).
 func (h *c39Hist) persistedBlock(img c39Image, kv ethdb.KeyValueStore) uint64 {
 	if h.sc.Scheme == rawdb.HashScheme {
-		if h.commitAt > 0 && h.commitAt <= img.prefix {
-			return uint64(h.sc.Commit)
+		if h.commitAt == 0 || h.commitAt > img.prefix {
+			return 0
 		}
-		return 0
+		if h.sc.Snapshots {
+			// With the legacy snapshot enabled, startup repair deliberately rewinds below the
+			// snapshot's persistent layer (issue 23496 policy) before it accepts a trie state, so
+			// a committed trie state ABOVE that layer is not a usable restart point. Only a
+			// commit at or below the snapshot disk layer counts as the persisted state.
+			if sroot := rawdb.ReadSnapshotRoot(kv); sroot != (common.Hash{}) {
+				layer := -1
+				if sroot == h.gspec.ToBlock().Root() {
+					layer = 0
+				}
+				for _, b := range h.canon {
+					if b.Root() == sroot {
+						layer = int(b.NumberU64())
+					}
+				}
+				if h.sc.Commit > layer {
+					return 0
+				}
+			}
+		}
+		return uint64(h.sc.Commit)
 	}
 	id := rawdb.ReadPersistentStateID(kv)
 	if id == 0 {
@@ -475,6 +541,7 @@ func (h *c39Hist) reopen(rt c39T, img c39Image) (nontrivial bool, class string) 
 	}
 	defer db.Close()
 	frozen, _ := db.Ancients()
+	h.lastFrozen = frozen
 	chain, err := NewBlockChain(db, h.gspec, ethash.NewFaker(), h.option)
 	if err != nil {
 		h.failf(rt, img, "NewBlockChain on the crash image failed: %v", err)
@@ -566,6 +633,15 @@ func (h *c39Hist) checkCanonical(rt c39T, img c39Image, chain *BlockChain, db et
 	want := hdr.Hash()
 	for n := hdr.Number.Uint64(); ; n-- {
 		got := rawdb.ReadCanonicalHash(db, n)
+		if got == (common.Hash{}) && when == "after recovery" && (strings.HasPrefix(img.point.label, "canon[") || strings.HasPrefix(img.point.label, "side")) {
+			if c39Known(c39ClassReorgGap) {
+				// known finding: reorg() deletes the canonical markers of the old fork in one
+				// batch and writeHeadBlock moves the head markers in the next one; a crash in
+				// between leaves the head header on the old fork without number->hash entries
+				h.excluded++
+				got = want
+			}
+		}
 		if got != want {
 			h.failf(rt, img, "%s: canonical hash at #%d is %x, but walking parents from the head header #%d gives %x", when, n, got.Bytes()[:4], hdr.Number, want.Bytes()[:4])
 		}
@@ -595,10 +671,23 @@ func (h *c39Hist) checkCanonical(rt c39T, img c39Image, chain *BlockChain, db et
 		want = x.ParentHash
 	}
 	top := uint64(h.sc.CanonL + h.sc.SideLen + 3)
+	below := hdr.Hash()
 	for n := hdr.Number.Uint64() + 1; n <= top; n++ {
-		if got := rawdb.ReadCanonicalHash(db, n); got != (common.Hash{}) {
-			h.failf(rt, img, "%s: canonical hash %x present at #%d above the head header #%d", when, got.Bytes()[:4], n, hdr.Number)
+		got := rawdb.ReadCanonicalHash(db, n)
+		if got == (common.Hash{}) {
+			below = common.Hash{}
+			continue
 		}
+		if b, ok := h.byHash[got]; ok && b.ParentHash() == below && img.point.label == "sethead" && c39Known(c39ClassSetHeadAbove) {
+			// known finding: SetHead lowers the head markers block by block but deletes the
+			// number->hash entries only in its final batch; a crash in between leaves entries of
+			// the old chain (still parent-linked to the new head) above the head header, and
+			// startup does not remove them
+			h.excluded++
+			below = got
+			continue
+		}
+		h.failf(rt, img, "%s: canonical hash %x present at #%d above the head header #%d", when, got.Bytes()[:4], n, hdr.Number)
 	}
 }
 
@@ -648,6 +737,9 @@ func c39Case(rt *rapid.T, st *vs.S, maxL, points int) {
 			anyNT = true
 		}
 		descs = append(descs, fmt.Sprintf("%s@%d/%d", p.label, p.event, prefix))
+	}
+	for k := 0; k < h.excluded; k++ {
+		st.Excluded()
 	}
 	desc := sc.String() + "|" + strings.Join(descs, ",")
 	c.NonTrivial(anyNT, desc)
@@ -704,6 +796,9 @@ func TestVerifC39EveryEvent(t *testing.T) {
 				c.Class("crash:" + class)
 				anyNT = anyNT || nt
 			}
+		}
+		for k := 0; k < h.excluded; k++ {
+			st.Excluded()
 		}
 		c.Classf("fixed:%d", i)
 		c.NonTrivial(anyNT, "fixed|"+sc.String())
